@@ -538,3 +538,99 @@ m('c06_opened_at_from_last_increase', ['C06'], 'jesse/models/Position.py',
 m('c06_reduced_hook_twice_on_market', ['C06'], 'jesse/strategies/Strategy.py',
   "        self.on_reduced_position(order)\n\n        self._detect_and_handle_entry_and_exit_modifications()",
   "        self.on_reduced_position(order)\n        if order.type == 'MARKET' and self.reduced_count > 1:\n            self.on_reduced_position(order)\n\n        self._detect_and_handle_entry_and_exit_modifications()")
+
+# ---- C09 -----------------------------------------------------------------------------------------
+m('c09_maintenance_004_to_04', ['C09'], 'jesse/models/Position.py',
+  "return self.entry_price * (1 - self._initial_margin_rate + 0.004)", "return self.entry_price * (1 - self._initial_margin_rate + 0.04)")
+m('c09_short_sign_flipped', ['C09'], 'jesse/models/Position.py',
+  "return self.entry_price * (1 + self._initial_margin_rate - 0.004)", "return self.entry_price * (1 + self._initial_margin_rate + 0.004)")
+m('c09_check_uses_close_only', ['C09'], 'jesse/modes/backtest_mode.py',
+  "    if candle_includes_price(candle, p.liquidation_price):\n        closing_order_side",
+  "    if (p.type == 'long' and candle[2] <= p.liquidation_price) or (p.type == 'short' and candle[2] >= p.liquidation_price):\n        closing_order_side")
+m('c09_liq_order_at_liq_price', ['C09'], 'jesse/modes/backtest_mode.py',
+  "            'price': p.bankruptcy_price\n        })", "            'price': p.liquidation_price\n        })")
+m('c09_not_reduce_only', ['C09'], 'jesse/modes/backtest_mode.py',
+  "            'type': order_types.MARKET,\n            'reduce_only': True,\n            'qty': jh.prepare_qty(p.qty, closing_order_side),",
+  "            'type': order_types.MARKET,\n            'reduce_only': False,\n            'qty': jh.prepare_qty(p.qty, closing_order_side),")
+m('c09_counter_twice', ['C09'], 'jesse/modes/backtest_mode.py',
+  "        store.app.total_liquidations += 1\n", "        store.app.total_liquidations += 2 if p.type == 'short' else 1\n")
+m('c09_also_cross', ['C09'], 'jesse/modes/backtest_mode.py',
+  "    if p.mode != 'isolated':\n        return",
+  """    if p.mode == 'spot':
+        return
+    if p.mode == 'cross':
+        if not p.is_open:
+            return
+        lp = p.entry_price * (1 - 1 / p.leverage + 0.004) if p.type == 'long' else p.entry_price * (1 + 1 / p.leverage - 0.004)
+        if not candle_includes_price(candle, lp):
+            return
+        p.exchange.futures_leverage_mode = 'isolated'""")
+m('c09_includes_strict_high', ['C09', 'C02'], 'jesse/services/candle.py',
+  'return (price >= candle[4]) and (price <= candle[3])', 'return (price >= candle[4]) and (price < candle[3])')
+m('c09_fast_liq_uses_last_minute_only', ['C09'], 'jesse/modes/backtest_mode.py',
+  "    store.app.time = real_candle[0] + (60_000 * len(short_timeframes_candles))\n    _check_for_liquidations(real_candle, exchange, symbol)",
+  "    store.app.time = real_candle[0] + (60_000 * len(short_timeframes_candles))\n    _check_for_liquidations(short_timeframes_candles[-1], exchange, symbol)")
+
+# ---- C10 -----------------------------------------------------------------------------------------
+m('c10_threshold_0015', ['C10'], 'jesse/helpers.py',
+  'def is_price_near(order_price, price_to_compare, percentage_threshold=0.00015):',
+  'def is_price_near(order_price, price_to_compare, percentage_threshold=0.0015):')
+m('c10_short_entry_swapped', ['C10'], 'jesse/strategies/Strategy.py',
+  """            # STOP order
+            elif o[1] < price_to_compare:
+                self.broker.start_profit_at(sides.SELL, o[0], o[1])
+            # LIMIT order
+            elif o[1] > price_to_compare:
+                self.broker.sell_at(o[0], o[1])""", """            # STOP order
+            elif o[1] > price_to_compare:
+                self.broker.api.stop_order(self.exchange, self.symbol, abs(o[0]), o[1], sides.SELL, reduce_only=False)
+            # LIMIT order
+            elif o[1] < price_to_compare:
+                self.broker.sell_at(o[0], o[1])""")
+m('c10_exit_not_reduce_only', ['C10', 'C03'], 'jesse/services/broker.py',
+  """            return self.api.stop_order(
+                self.exchange,
+                self.symbol,
+                abs(qty),
+                price,
+                side,
+                reduce_only=True
+            )""", """            return self.api.stop_order(
+                self.exchange,
+                self.symbol,
+                abs(qty),
+                price,
+                side,
+                reduce_only=False
+            )""")
+m('c10_sl_cancel_filters_tp', ['C10'], 'jesse/strategies/Strategy.py',
+  """                    for o in self.active_exit_orders:
+                        if o.is_stop_loss and (o.is_active or o.is_queued):
+                            self.broker.cancel_order(o.id)""", """                    for o in self.active_exit_orders:
+                        if o.is_take_profit and (o.is_active or o.is_queued):
+                            self.broker.cancel_order(o.id)""")
+m('c10_cancel_entry_ignored', ['C10'], 'jesse/strategies/Strategy.py',
+  "        if len(self.entry_orders) and self.is_close and self.should_cancel_entry():",
+  "        if len(self.entry_orders) and self.is_close and (self.should_cancel_entry() or self.index % 3 == 0):")
+m('c10_cancel_entry_not_done', ['C10'], 'jesse/strategies/Strategy.py',
+  "        if len(self.entry_orders) and self.is_close and self.should_cancel_entry():",
+  "        if len(self.entry_orders) and self.is_close and self.should_cancel_entry() and self.index % 3 != 0:")
+m('c10_exit_limit_stop_swapped_short', ['C10'], 'jesse/services/broker.py',
+  "side == 'buy' and self.position.type == 'short' and price < current_price):\n            return self.api.limit_order(",
+  "side == 'buy' and self.position.type == 'short' and price < current_price and self.position.qty > -1e9 and False):\n            return self.api.limit_order(")
+m('c10_tp_modification_keeps_old', ['C10'], 'jesse/strategies/Strategy.py',
+  """                    for o in self.active_exit_orders:
+                        if o.is_take_profit and (o.is_active or o.is_queued):
+                            self.broker.cancel_order(o.id)
+
+                    # SUBMIT new orders
+                    for o in self._take_profit:""", """                    for o in self.active_exit_orders[:2]:
+                        if o.is_take_profit and (o.is_active or o.is_queued):
+                            self.broker.cancel_order(o.id)
+
+                    # SUBMIT new orders
+                    for o in self._take_profit:""")
+m('c10_market_entry_qty_rounded', ['C10'], 'jesse/strategies/Strategy.py',
+  """            if jh.is_price_near(o[1], price_to_compare):
+                self.broker.buy_at_market(o[0])""", """            if jh.is_price_near(o[1], price_to_compare):
+                self.broker.buy_at_market(round(o[0], 2) or o[0])""")
